@@ -40,6 +40,11 @@ type Check struct {
 	// QuickBudget / ThoroughBudget are soft wall-clock budgets per worker; when hit the check
 	// stops, reports exhaustive:false and still exits 0.
 	QuickBudget, ThoroughBudget time.Duration
+	// UnstableIsViolation: a violation that does not reproduce identically when its witness (a complete
+	// schedule) is replayed is itself reported as a violation (signature same-witness-different-observations)
+	// instead of as a harness problem. Only C19 sets it: there the harness owns every scheduling decision, so
+	// differing observations under one schedule mean hidden shared mutable state in the library.
+	UnstableIsViolation bool
 	// MinItems is the driver-side vacuity floor: fewer generated work items than this means the
 	// check itself is broken (exit 2).
 	MinItems int64
@@ -425,7 +430,14 @@ func coordinate(ck *Check, tier string, seed int64) int {
 		if ck.Replay != nil {
 			s1, _ := safeReplay(ck, v.Witness)
 			s2, _ := safeReplay(ck, v.Witness)
-			if s1 != v.Sig || s2 != v.Sig {
+			if (s1 != v.Sig || s2 != v.Sig) && ck.UnstableIsViolation {
+				v.Msg = fmt.Sprintf("the same schedule gave different observations when replayed (first run: %s; replays: %q, %q): hidden shared mutable state. First observation: %s", v.Sig, s1, s2, v.Msg)
+				v.Sig = "same-witness-different-observations"
+				merged.SigCounts[v.Sig]++
+				if written[v.Sig] >= 1 {
+					continue
+				}
+			} else if s1 != v.Sig || s2 != v.Sig {
 				fmt.Fprintf(os.Stderr, "HARNESS-ERROR: violation sig=%s did not reproduce from its witness (replays gave %q, %q); treated as harness nondeterminism\n", v.Sig, s1, s2)
 				fmt.Fprintf(os.Stderr, "  msg: %s\n  witness: %s\n", v.Msg, string(v.Witness))
 				exit = 2
